@@ -2,8 +2,12 @@
     Statements only; proofs live in Dom/ViewProofs.v, Dom/ViewTop.v (model: Dom/View.v).
     [cv v] is what a fresh render of [v] shows (node identity forgotten), [cs s] what the
     state [s] shows; [mounted pre post s w]: the parent's children are
-    [pre ++ nodes of s ++ post] without repetition.  [okv v] = KnownClass_C03 does not apply:
-    no StaticVec (F-C03-ab), no active [class:on] toggle (F-C03-c), no empty tuple.
+    [pre ++ nodes of s ++ post] without repetition.  KnownClass_C03 is the complement of
+    [okv v /\ compat v s]: [okv] = no view that may own no node (StaticVec / Fragment, empty
+    array or tuple: F-C03-ab); [compat v s] = no element rebuilt in place whose [class:on]
+    toggle was on and whose class string / toggle do not put the token back (F-C03-c).
+    Covered: text (String, &str, i32), unit, elements with id / hidden / class / class:on /
+    style attributes, tuples, arrays, Either, EitherOf3, Option, Vec, AnyView type changes.
     All theorems are for arbitrary sibling contexts, nesting depth and histories. *)
 From Coq Require Import List NArith.
 From LV Require Import Dom.Dom Dom.View Dom.ViewProofs Dom.ViewTop.
@@ -24,7 +28,7 @@ Print Assumptions C03_render_fresh_ok.
     [rebuild_eq_fresh] outside the known classes. *)
 Theorem C03_rebuild_eq_fresh_except_known :
   forall (pre post : list N) (s : st) (w : rw) (v : view),
-    mounted pre post s w -> okv v ->
+    mounted pre post s w -> okv v -> compat v s ->
     let '(s', w') := rebuild_any v s w in mounted pre post s' w' /\ cs s' = cv v.
 Proof. exact rebuild_eq_fresh. Qed.
 Print Assumptions C03_rebuild_eq_fresh_except_known.
@@ -32,7 +36,7 @@ Print Assumptions C03_rebuild_eq_fresh_except_known.
 (** any sequence of rebuilds ends showing the last value *)
 Theorem C03_rebuild_seq_eq_fresh :
   forall (vs : list view) (pre post : list N) (s : st) (w : rw) (v0 : view),
-    mounted pre post s w -> cs s = cv v0 -> all_ok vs ->
+    mounted pre post s w -> cs s = cv v0 -> all_ok vs s w ->
     let '(s', w') := rebuild_seq vs s w in mounted pre post s' w' /\ cs s' = cv (last vs v0).
 Proof. exact rebuild_seq_eq_fresh. Qed.
 Print Assumptions C03_rebuild_seq_eq_fresh.
@@ -49,7 +53,7 @@ Theorem C03_retained_nodes_kept :
   forall (v : view) (s : st) (w : rw) (s' : st) (w' : rw),
     rebuild_any v s w = (s', w') -> tcode_eqb (tc_view v) (tc_st s) = true ->
     match s with
-    | SText id _ | SUnit id | SEl id _ _ _ _ _ => ids s' = [id]
+    | SText id _ _ | SUnit id | SEl id _ _ _ _ _ => ids s' = [id]
     | SVec _ mk => exists l, ids s' = l ++ [mk]
     | _ => True
     end.
@@ -59,16 +63,16 @@ Print Assumptions C03_retained_nodes_kept.
 (** the general statement is refuted on the code as it is — F-C03-a: replacing an empty
     StaticVec loses the new content (the parent stays empty) *)
 Theorem C03_rebuild_eq_fresh_refuted_static_empty :
-  let '(s, w) := render_fresh [] [] (VEither false (VStatic [])) 0 in
-  let '(s', w') := rebuild_any (VEither true (VText [104; 105]%N)) s w in
+  let '(s, w) := render_fresh [] [] (VEither 2 0 (VStatic [])) 0 in
+  let '(s', w') := rebuild_any (VEither 2 1 (VText 0 [104; 105]%N)) s w in
   r_dom w' = [] /\ ids s' = [0%N].
 Proof. exact refuted_static_empty. Qed.
 Print Assumptions C03_rebuild_eq_fresh_refuted_static_empty.
 
 (** F-C03-b: a rebuilt StaticVec lands after its following sibling *)
 Theorem C03_rebuild_eq_fresh_refuted_static_after_sibling :
-  let '(s, w) := render_fresh [0%N] [1%N] (VStatic [VText [97%N]]) 2 in
-  let '(s', w') := rebuild_any (VStatic [VText [98%N]]) s w in
+  let '(s, w) := render_fresh [0%N] [1%N] (VStatic [VText 0 [97%N]]) 2 in
+  let '(s', w') := rebuild_any (VStatic [VText 0 [98%N]]) s w in
   r_dom w = [0; 2; 1]%N /\ r_dom w' = [0; 1; 3]%N /\ ids s' = [3%N].
 Proof. exact refuted_static_after_sibling. Qed.
 Print Assumptions C03_rebuild_eq_fresh_refuted_static_after_sibling.
